@@ -317,7 +317,7 @@ def run_bounded(res):
             for kind, detail in fails:
                 fid = None
                 for prefix, f in KNOWN.items():
-                    if kind.startswith(prefix):
+                    if common.kind_matches(kind, prefix):
                         fid = f
                 if fid:
                     res.known_hit(fid)
